@@ -83,6 +83,7 @@ type Contract struct {
 	EnsuresRecovered []Clause // must hold at exits reached through a recovered panic
 	GhostEntry []Clause // "ghost_entry x.f = expr": ghost assignments performed at function entry
 	GhostSet  []Clause // "ghost_assign x.f = expr": ghost assignments performed at every normal exit
+	GhostAfter []Clause // "ghost_after callee x.f = expr": performed after each direct call of a matching callee
 }
 
 type PureFn struct {
@@ -477,6 +478,11 @@ func (db *SpecDB) LoadFile(path, pkgPath string) error {
 			cur.GhostEntry = append(cur.GhostEntry, Clause{Kind: word, Text: rest, File: path, Line: ln})
 		case "ghost_assign":
 			cur.GhostSet = append(cur.GhostSet, Clause{Kind: word, Text: rest, File: path, Line: ln})
+		case "ghost_after":
+			// ghost_after <callee name part> x.f = expr : ghost assignment performed right after every call (made
+			// by the function itself) whose callee name contains the given text; `result` is the call's first result
+			w3, r3 := splitWord(rest)
+			cur.GhostAfter = append(cur.GhostAfter, Clause{Kind: word, Name: w3, Text: r3, File: path, Line: ln})
 		case "uses":
 			cur.Uses = append(cur.Uses, strings.Fields(rest)...)
 		default:
